@@ -127,6 +127,10 @@ type Store struct {
 	Closed   int64
 	nextConn int64
 
+	// Dribble, when not 0, seeds the segmentation of the reply stream: every flush is written in
+	// up to four pieces with a pause between them, the way a network delivers a reply in parts.
+	Dribble int64
+
 	// Gate, when set, is called with the store unlocked before each request is processed.
 	Gate func(conn int, r *Request)
 	// AfterReply, when set, is called after the reply (if any) has been flushed.
@@ -139,8 +143,11 @@ type Store struct {
 }
 
 func New(name string, clock *Clock) *Store {
-	return &Store{Name: name, Clock: clock, m: map[string]*Entry{}, conns: map[int]io.Closer{}}
+	return &Store{Name: name, Clock: clock, m: map[string]*Entry{}, conns: map[int]io.Closer{}, Dribble: DefaultDribble}
 }
+
+// DefaultDribble is copied into every new Store (set from the -dribble flag of the harness).
+var DefaultDribble int64
 
 // ---- table access for the harness ----
 
@@ -495,6 +502,12 @@ func readRequest(br *bufio.Reader) (*Request, error) {
 type outQueue struct {
 	w   io.Writer
 	buf []byte
+	rng uint64 // 0: write in one piece
+}
+
+func (q *outQueue) next(n int) int {
+	q.rng = q.rng*6364136223846793005 + 1442695040888963407
+	return int((q.rng >> 33) % uint64(n))
 }
 
 func (q *outQueue) Write(p []byte) (int, error) { q.buf = append(q.buf, p...); return len(p), nil }
@@ -502,8 +515,31 @@ func (q *outQueue) Flush() error {
 	if len(q.buf) == 0 {
 		return nil
 	}
-	_, err := q.w.Write(q.buf)
+	b := q.buf
 	q.buf = q.buf[:0]
+	if q.rng != 0 && len(b) > 1 && q.next(4) != 0 {
+		// cut points: inside the first header, just behind it, anywhere
+		for i := 0; i < 3 && len(b) > 1; i++ {
+			var cut int
+			switch q.next(4) {
+			case 0:
+				cut = 1 + q.next(24)
+			case 1:
+				cut = 24 + q.next(9)
+			default:
+				cut = 1 + q.next(len(b)-1)
+			}
+			if cut >= len(b) {
+				continue
+			}
+			if _, err := q.w.Write(b[:cut]); err != nil {
+				return err
+			}
+			b = b[cut:]
+			time.Sleep(40 * time.Microsecond)
+		}
+	}
+	_, err := q.w.Write(b)
 	return err
 }
 
@@ -526,6 +562,9 @@ func (s *Store) Serve(c io.ReadWriteCloser) {
 	// point, as memcached does: a client that pipelines many quiet gets before reading anything
 	// must not be throttled by the size of a write buffer
 	bw := &outQueue{w: c}
+	if s.Dribble != 0 {
+		bw.rng = uint64(s.Dribble)*2654435761 + uint64(id) | 1
+	}
 	for {
 		r, err := readRequest(br)
 		if err != nil {
